@@ -31,13 +31,16 @@ namespace PSC {
 
         FileMode getMode();
 
+        // false if the underlying stream could not be opened
+        bool isOpen();
+
         bool eof();
 
         void close();
 
         String read();
 
-        void write(const String &data);
+        bool write(const String &data);
 
         bool seek(const Integer &address);
 
